@@ -307,6 +307,16 @@ func earlyReturnUnaryResp(e *core.Env, prop string, c *Carrier, name string, r *
 	}
 	// Invoke has returned: the caller may reuse its message
 	mutateMsg(req)
+	if r.Intn(2) == 0 {
+		// ... and goes on to its next call of the same method, which runs to completion while the server side of the
+		// abandoned call has still not looked at its request
+		sc2 := &Script{Kind: Unary, UnaryReq: &tpb.Message{Payload: []byte("request of the caller's next call"), Count: 777}, Resp: &tpb.Message{Payload: []byte("reply 2")}}
+		run2 := c.Svc.NewRun(sc2, name)
+		ctx2, cancel2 := context.WithTimeout(metadata.AppendToOutgoingContext(context.Background(), runKey, run2.ID), 5*time.Second)
+		c.CC.Invoke(ctx2, Unary.Method(), sc2.UnaryReq, new(tpb.Message))
+		cancel2()
+		c.Svc.Forget(run2)
+	}
 	plan.Release()
 	// let the server goroutine finish (it may or may not run the handler)
 	select {
